@@ -138,6 +138,13 @@ func C10_Events() {
 	lg.check()
 	n := wd.n
 	n.bu.Lenient = env.ParamOr("lenient", 0) == 1
+	if env.ParamOr("sendfail", 0) == 1 {
+		// the transport may report an error for any PREPARE broadcast (after part of the recipients got it)
+		n.comm.Fail = func(s *stub.Sent) bool {
+			_, isP := s.Msg.(*interfaces.PrepareMessage)
+			return isP && env.NondetBool("send_error")
+		}
+	}
 	var prev *interfaces.ConsensusRawMessage
 	div := 1
 	for i := 1; i < nEvents; i++ {
